@@ -84,4 +84,11 @@ ssize_t writev(int fd, const struct iovec* iov, int cnt) {   /* route through wr
     for (int i = 0; i < cnt; ++i) if (iov[i].iov_len) return write(fd, iov[i].iov_base, iov[i].iov_len);
     return 0;
 }
-off64_t lseek64(int fd, off64_t off, int whence) { init(); if (vf_plan.active && is_dev_fd(fd)) vf_stats.seeks++; return r_lseek64(fd, off, whence); }
+off64_t lseek64(int fd, off64_t off, int whence) {
+    init();
+    if (vf_plan.active && is_dev_fd(fd)) {
+        int repositions = !(whence == SEEK_CUR && off == 0);   /* (tellg is a seek by 0 from the current position: a pipe answers that with ESPIPE too, but libstdc++ asks it before every write; only real moves are failed) */
+        if (repositions) { vf_stats.seeks++; if (vf_plan.failSeekCall == -1 || (vf_plan.failSeekCall > 0 && vf_stats.seeks == vf_plan.failSeekCall)) { vf_stats.injected++; errno = ESPIPE; return (off64_t)-1; } }
+    }
+    return r_lseek64(fd, off, whence);
+}
